@@ -414,7 +414,24 @@ static int node_share (mapping_t * m, mapping_node_t * elt, void *tp) {
   return 0;
 }
 
+static size_t memory_share_1 (svalue_t *);
+
+/* values may contain themselves: follow references to a fixed depth only (cf. svalue_size() in dumpstat.c) */
+#define MEMORY_SHARE_MAX_DEPTH	64
+
 static size_t memory_share (svalue_t * sv) {
+  static int depth = 0;
+  size_t total;
+
+  if (depth >= MEMORY_SHARE_MAX_DEPTH)
+    return sizeof (svalue_t);
+  depth++;
+  total = memory_share_1 (sv);
+  depth--;
+  return total;
+}
+
+static size_t memory_share_1 (svalue_t * sv) {
   size_t total = sizeof (svalue_t), subtotal;
   int i;
 
